@@ -6,6 +6,8 @@ and Hadamard-conjugated corner = P(cos t) within 1e-9 |P|_1 for every t; purely 
 """
 from fractions import Fraction
 
+import math
+
 import numpy as np
 
 import core
@@ -16,6 +18,13 @@ PROP = "C05"
 
 
 def one(ctx, C, Pc, tol, kind, meta):
+    out = _one(ctx, C, Pc, tol, kind, meta)
+    if out and out[0] == "ok":
+        core.poison(out[1])      # the caller owns the returned element
+    return out
+
+
+def _one(ctx, C, Pc, tol, kind, meta):
     drv = ctx.driver()
     rec = {}
     opq = C._pq_completion
@@ -98,6 +107,11 @@ def run(tier, seed):
                 kind = "not-a-corner:perturbed"
                 Pc = Pc + 0.05 * (rng.normal(size=len(Pc)) + 1j * rng.normal(size=len(Pc))) * (np.abs(Pc) > 0)
             one(ctx, C, list(Pc), tol, kind, {"style": style, "source_phases": ph})
+    # smallest sizes: constant P (length 1).  |c| != 1 is not a corner (an even polynomial with |P(1)| != 1) and must be
+    # rejected; whatever is returned for any constant is judged like every other result
+    for c in [0.5, 0.3 + 0.2j, 2.0, 0.0, 1.0, -1.0, 1j, complex(math.cos(0.7), math.sin(0.7)), 0.999999, 1 - 1e-9]:
+        for tol in (1e-6, 1e-9):
+            one(ctx, C, [complex(c)], tol, "constant:" + ("unit-modulus" if abs(abs(c) - 1) < 1e-12 else "not-a-corner"), {"style": "constant", "source_phases": []})
     if not ctx.dist.get("outcome:ok"):
         raise core.InfraError("no completion returned at all: every clause of C05 was exercised vacuously (outcomes: %s)"
                               % {k: v for k, v in ctx.dist.items() if k.startswith("outcome:")})
